@@ -177,3 +177,46 @@ fn c12_as_score_tables() {
     assert!(HttpMatchQuality::High.as_score() == 0 && HttpMatchQuality::Medium.as_score() == 1
         && HttpMatchQuality::Low.as_score() == 2 && HttpMatchQuality::Bad.as_score() == 3);
 }
+
+// ---- decisive list fields: quirks and option layout must be equal as lists (same elements, same order, same length)
+use crate::observable_signals::TcpObservation;
+fn any_quirk() -> Quirk {
+    match kani::any::<u8>() % 5 { 0 => Quirk::Df, 1 => Quirk::NonZeroID, 2 => Quirk::Ecn, 3 => Quirk::FlowID, _ => Quirk::Push }
+}
+fn any_opt() -> TcpOption {
+    match kani::any::<u8>() % 5 { 0 => TcpOption::Mss, 1 => TcpOption::Nop, 2 => TcpOption::Ws, 3 => TcpOption::Eol(kani::any()), _ => TcpOption::Unknown(kani::any()) }
+}
+fn quirk_list(n: usize) -> Vec<Quirk> { let mut v = Vec::new(); let mut i = 0; while i < n { v.push(any_quirk()); i += 1; } v }
+fn opt_list(n: usize) -> Vec<TcpOption> { let mut v = Vec::new(); let mut i = 0; while i < n { v.push(any_opt()); i += 1; } v }
+fn lists_equal<T: PartialEq>(a: &Vec<T>, b: &Vec<T>) -> bool {
+    if a.len() != b.len() { return false; }
+    let mut i = 0;
+    while i < a.len() { if a[i] != b[i] { return false; } i += 1; }
+    true
+}
+fn obs_with(quirks: Vec<Quirk>, olayout: Vec<TcpOption>) -> TcpObservation {
+    TcpObservation { version: IpVersion::V4, ittl: Ttl::Value(64), olen: 0, mss: None, wsize: WindowSize::Value(1), wscale: None, olayout, quirks, pclass: PayloadSize::Zero }
+}
+fn sig_with(quirks: Vec<Quirk>, olayout: Vec<TcpOption>) -> Signature {
+    Signature { version: IpVersion::V4, ittl: Ttl::Value(64), olen: 0, mss: None, wsize: WindowSize::Value(1), wscale: None, olayout, quirks, pclass: PayloadSize::Zero }
+}
+#[kani::proof]
+#[kani::unwind(5)]
+fn c12_quirks_decisive() {
+    let (n1, n2): (usize, usize) = (kani::any(), kani::any());
+    kani::assume(n1 <= 2 && n2 <= 2);
+    let (a, b) = (quirk_list(n1), quirk_list(n2));
+    let eq = lists_equal(&a, &b);
+    let r = obs_with(a, Vec::new()).distance_quirks(&sig_with(b, Vec::new()));
+    assert!(r == if eq { Some(0) } else { None });
+}
+#[kani::proof]
+#[kani::unwind(5)]
+fn c12_olayout_decisive() {
+    let (n1, n2): (usize, usize) = (kani::any(), kani::any());
+    kani::assume(n1 <= 2 && n2 <= 2);
+    let (a, b) = (opt_list(n1), opt_list(n2));
+    let eq = lists_equal(&a, &b);
+    let r = obs_with(Vec::new(), a).distance_olayout(&sig_with(Vec::new(), b));
+    assert!(r == if eq { Some(0) } else { None });
+}
